@@ -235,3 +235,557 @@ Proof. intros _. apply (q_run_raw max ifexp ops). Qed.
 Lemma q_cursor_in_range max ifexp ops :
   (q_cur (fst (q_run (q_new max ifexp) ops)) <= length (q_l (fst (q_run (q_new max ifexp) ops))))%nat.
 Proof. apply (q_run_raw max ifexp ops). Qed.
+
+(* ------------------------------------------------------------------ *)
+(* 2. well-formed histories: what the broker guarantees                *)
+(* ------------------------------------------------------------------ *)
+
+Definition is_pub0 (e : elem) : bool :=
+  match e_body e with QPub m => m_pid m =? 0 | QRel _ => false end.
+
+Fixpoint nodupb (l : list N) : bool :=
+  match l with [] => true | x :: r => negb (memN x r) && nodupb r end.
+
+(* Add gets a PUBLISH without packet id and with a fresh non-zero tag; Read is only called once
+   the in-flight entries are drained and gets distinct non-zero ids that are not in flight;
+   Replace gets a PUBREL with a non-zero id (its ghost tag is 0: the code never reads tags) *)
+Definition wf_step (q : queue) (seen : list N) (o : qop) : bool :=
+  match o with
+  | OAdd _ e => is_pub0 e && negb (e_tag e =? 0) && negb (memN (e_tag e) seen)
+  | ORead _ pids => q_drained q && forallb (fun p => negb (p =? 0)) pids && nodupb pids
+                    && forallb (fun p => negb (existsb (fun e => e_id e =? p) (q_l q))) pids
+  | OReplace e => match e_body e with QRel p => negb (p =? 0) && (e_tag e =? 0) | QPub _ => false end
+  | _ => true
+  end.
+
+(* tags passed to Add since the last Init(clean) *)
+Definition seen_step (seen : list N) (o : qop) : list N :=
+  match o with OAdd _ e => e_tag e :: seen | OInit true _ _ => [] | _ => seen end.
+
+Fixpoint wf_run (q : queue) (seen : list N) (ops : list qop) : bool :=
+  match ops with
+  | [] => true
+  | o :: r => wf_step q seen o &&
+              (let '(q', out) := q_step q o in
+               match out with RPanic => true | _ => wf_run q' (seen_step seen o) r end)
+  end.
+
+Lemma memN_In x l : memN x l = true <-> In x l.
+Proof.
+  induction l as [|y r IH]; simpl; [split; [discriminate|tauto]|].
+  rewrite orb_true_iff, IH, N.eqb_eq. split; intros [H|H]; auto.
+Qed.
+
+(* ------------------------------------------------------------------ *)
+(* 3. the simulation relation                                          *)
+(* ------------------------------------------------------------------ *)
+
+Definition eqos (e : elem) : N := match e_body e with QPub m => m_qos m | QRel _ => 1 end.
+
+(* an in-flight element of the model and its abstract entry *)
+Definition inf_rel (e : elem) (a : aent) : Prop :=
+  e_id e <> 0 /\ a_pid a = e_id e /\ a_exp a = e_expiry e /\
+  match e_body e with
+  | QPub m => a_rel a = false /\ aqos a = m_qos m /\ a_tag a = e_tag e
+  | QRel _ => a_rel a = true /\ e_tag e = 0
+  end.
+
+Definition tags_ok (seen : list N) (T : list N) : Prop :=
+  NoDup T /\ (forall t, In t T -> t <> 0 /\ In t seen).
+
+Lemma tags_ok_subseq seen T T' : tags_ok seen T -> subseq T' T -> tags_ok seen T'.
+Proof.
+  intros [Hn Hi] Hs. split.
+  - eapply subseq_NoDup; eauto.
+  - intros t Ht. apply Hi. eapply subseq_in; eauto.
+Qed.
+
+Lemma NoDup_snoc {A} (l : list A) x : NoDup l -> ~ In x l -> NoDup (l ++ [x]).
+Proof.
+  induction l as [|y r IH]; intros Hn Hx; simpl.
+  - constructor; auto.
+  - inversion Hn; subst. constructor.
+    + intros Hi. apply in_app_or in Hi. destruct Hi as [Hi|[->|[]]]; auto. apply Hx. left; auto.
+    + apply IH; auto. intros Hi. apply Hx. right; auto.
+Qed.
+
+Lemma tags_ok_snoc seen T t : tags_ok seen T -> t <> 0 -> ~ In t seen -> tags_ok (t :: seen) (T ++ [t]).
+Proof.
+  intros [Hn Hi] Ht0 Hts. split.
+  - apply NoDup_snoc; auto. intros Hx. apply Hts. apply Hi; auto.
+  - intros x Hx. apply in_app_or in Hx. destruct Hx as [Hx|[<-|[]]].
+    + destruct (Hi x Hx). split; auto. right; auto.
+    + split; auto. left; auto.
+Qed.
+
+Record R (q : queue) (seen : list N) (s : ast) (inf que : list elem) : Prop := {
+  R_l : q_l q = inf ++ que;
+  R_inf : Forall2 inf_rel inf (a_inf s);
+  R_que : Forall (fun e => is_pub0 e = true) que;
+  R_aq : a_q s = map ent_of_elem que;
+  R_rem : (a_rem s <= length (a_inf s))%nat;
+  R_cur : q_cur q = (length (a_inf s) - a_rem s)%nat;
+  R_dr : q_drained q = true -> a_rem s = 0%nat;
+  R_fdr : a_drained s = q_drained q;
+  R_fcl : a_closed s = q_closed q;
+  R_lim : a_limit s = q_limit q;
+  R_v5 : a_v5 s = q_v5 q;
+  R_max : a_max s = q_max q;
+  R_ifexp : a_ifexp s = q_ifexp q;
+  R_tags : tags_ok seen (map a_tag (a_inf s ++ a_q s));
+  R_cq : a_cq s = Z.of_nat (length (a_inf s) + length (a_q s));
+  R_ci : a_ci s = Z.of_nat (length (a_inf s));
+  R_len : (length (a_inf s) + length (a_q s) <= a_max s)%nat }.
+
+Definition Rx (q : queue) (seen : list N) (s : ast) : Prop := exists inf que, R q seen s inf que.
+
+Lemma R_inv_ok q seen s : Rx q seen s -> inv_ok s = true.
+Proof.
+  intros (inf & que & H). unfold inv_ok.
+  rewrite (R_cq _ _ _ _ _ H), (R_ci _ _ _ _ _ H), !Z.eqb_refl. simpl.
+  apply orb_true_iff. left. apply Nat.leb_le. apply (R_len _ _ _ _ _ H).
+Qed.
+
+Lemma R_len_inf q seen s inf que : R q seen s inf que -> length inf = length (a_inf s).
+Proof. intros H. apply (Forall2_length' _ _ _ (R_inf _ _ _ _ _ H)). Qed.
+
+Definition step_sim (q : queue) (seen : list N) (s : ast) (o : qop) : Prop :=
+  snd (q_step q o) <> RPanic /\
+  exists s', step_ok s o (oout_of (snd (q_step q o))) = Some s' /\
+             Rx (fst (q_step q o)) (seen_step seen o) s'.
+
+(* ---- Init, Close ---- *)
+Lemma init_sim q seen s c v lim : Rx q seen s -> step_sim q seen s (OInit c v lim).
+Proof.
+  intros (inf & que & H). split; [discriminate|]. simpl.
+  eexists; split; [reflexivity|]. destruct c.
+  - exists [], []. constructor; simpl; auto; try (apply (R_max _ _ _ _ _ H)); try (apply (R_ifexp _ _ _ _ _ H)); try lia.
+    split; [constructor|intros t []].
+  - exists inf, que. destruct H. constructor; simpl; auto; try lia.
+Qed.
+
+Lemma close_sim q seen s : Rx q seen s -> step_sim q seen s OClose.
+Proof.
+  intros (inf & que & H). split; [discriminate|]. simpl.
+  eexists; split; [reflexivity|]. exists inf, que. destruct H. constructor; simpl; auto.
+Qed.
+
+(* ---- Remove, Replace ---- *)
+Lemma find_id_sim pid que : forall inf ainf, Forall2 inf_rel inf ainf ->
+  forall n i, (n <= length inf)%nat -> find_id pid (inf ++ que) n i = find_pid_idx pid ainf n i.
+Proof.
+  intros inf ainf H. induction H as [|e a inf ainf Hea H IH]; intros [|k] i Hn; simpl in *; try lia; auto.
+  - destruct que; reflexivity.
+  - destruct Hea as (_ & Hp & _). rewrite Hp. destruct (e_id e =? pid); auto. apply IH. lia.
+Qed.
+
+Lemma tags_remove_inf (ainf aq : list aent) i :
+  subseq (map a_tag (remove_nth i ainf ++ aq)) (map a_tag (ainf ++ aq)).
+Proof.
+  rewrite !map_app. apply subseq_app; [|apply subseq_refl].
+  rewrite map_remove_nth. apply subseq_remove_nth.
+Qed.
+
+Lemma remove_sim q seen s pid : Rx q seen s -> step_sim q seen s (ORemove pid).
+Proof.
+  intros (inf & que & H). pose proof (R_len_inf _ _ _ _ _ H) as Hli. destruct H.
+  unfold step_sim. simpl. unfold q_remove, remove_ok.
+  rewrite R_l0, <- R_cur0.
+  rewrite (find_id_sim pid que inf (a_inf s) R_inf0) by lia.
+  pose proof (find_id_bound pid (inf ++ que) (q_cur q) 0) as Hb.
+  rewrite (find_id_sim pid que inf (a_inf s) R_inf0) in Hb by lia.
+  destruct (find_pid_idx pid (a_inf s) (q_cur q) 0) as [i|] eqn:Hf; simpl.
+  - split; [discriminate|]. specialize (Hb i eq_refl).
+    eexists; split; [reflexivity|]. exists (remove_nth i inf), que.
+    assert (Hlen : length (remove_nth i (a_inf s)) = (length (a_inf s) - 1)%nat) by (apply remove_nth_length; lia).
+    constructor; simpl; auto; try lia.
+    + apply remove_nth_app1. lia.
+    + apply Forall2_remove_nth; auto.
+    + eapply tags_ok_subseq; eauto. apply tags_remove_inf.
+  - split; [discriminate|]. eexists; split; [reflexivity|]. exists inf, que. constructor; auto.
+Qed.
+
+Lemma map_replace_nth_same {A B} (f : A -> B) (l : list A) y : forall i old,
+  nth_error l i = Some old -> f y = f old -> map f (replace_nth i y l) = map f l.
+Proof.
+  induction l as [|x r IH]; intros [|i] old Hn Hf; simpl in *; try discriminate.
+  - inversion Hn; subst. rewrite Hf. reflexivity.
+  - erewrite IH; eauto.
+Qed.
+
+Lemma replace_sim q seen s e : Rx q seen s -> wf_step q seen (OReplace e) = true ->
+  step_sim q seen s (OReplace e).
+Proof.
+  intros (inf & que & H) Hwf. pose proof (R_len_inf _ _ _ _ _ H) as Hli. destruct H.
+  simpl in Hwf. destruct (e_body e) as [m|p] eqn:Hb; [discriminate|].
+  apply andb_true_iff in Hwf. destruct Hwf as [Hp Ht].
+  apply negb_true_iff, N.eqb_neq in Hp. apply N.eqb_eq in Ht.
+  assert (Hid : e_id e = p) by (unfold e_id; rewrite Hb; reflexivity).
+  unfold step_sim. simpl. unfold q_replace, replace_ok.
+  rewrite R_l0, <- R_cur0.
+  rewrite (find_id_sim (e_id e) que inf (a_inf s) R_inf0) by lia.
+  pose proof (find_id_bound (e_id e) (inf ++ que) (q_cur q) 0) as Hbd.
+  rewrite (find_id_sim (e_id e) que inf (a_inf s) R_inf0) in Hbd by lia.
+  destruct (find_pid_idx (e_id e) (a_inf s) (q_cur q) 0) as [i|] eqn:Hf; simpl.
+  - split; [discriminate|]. specialize (Hbd i eq_refl).
+    destruct (nth_error (a_inf s) i) as [old|] eqn:Hold.
+    2:{ apply nth_error_None in Hold. lia. }
+    eexists; split; [reflexivity|]. exists (replace_nth i e inf), que.
+    constructor; simpl; auto; rewrite ?replace_nth_length; auto.
+    + apply replace_nth_app1. lia.
+    + apply Forall2_replace_nth; auto.
+      unfold inf_rel, ent_of_elem. rewrite Hb, Hid. simpl. auto.
+    + rewrite map_app. erewrite map_replace_nth_same; eauto. rewrite <- map_app. auto.
+  - split; [discriminate|]. eexists; split; [reflexivity|]. exists inf, que. constructor; auto.
+Qed.
+
+(* ---- ReadInflight ---- *)
+Definition etouch (now ifexp : N) (e : elem) : elem :=
+  if ifexp =? 0 then e else with_expiry (Some (now + ifexp)) e.
+Definition atouch (now ifexp : N) (a : aent) : aent :=
+  {| a_tag := a_tag a; a_pid := a_pid a; a_rel := a_rel a; a_msg := a_msg a;
+     a_exp := if ifexp =? 0 then a_exp a else Some (now + ifexp) |}.
+Definition isnil {A} (l : list A) : bool := match l with [] => true | _ => false end.
+
+Lemma is_pub0_id e : is_pub0 e = true -> e_id e = 0.
+Proof. unfold is_pub0, e_id. destruct (e_body e); [apply N.eqb_eq|discriminate]. Qed.
+
+Lemma rif_loop_spec now ifexp que : Forall (fun e => is_pub0 e = true) que ->
+  forall n mid pre rs, Forall (fun e => e_id e <> 0) mid ->
+  rif_loop now n (pre ++ mid ++ que) (length pre) ifexp rs =
+  (pre ++ map (etouch now ifexp) (firstn n mid) ++ skipn n mid ++ que,
+   (length pre + length (firstn n mid))%nat,
+   (length mid <? n)%nat && negb (isnil que),
+   rs ++ map (etouch now ifexp) (firstn n mid)).
+Proof.
+  intros Hq. induction n as [|k IH]; intros mid pre rs Hm.
+  - simpl. rewrite app_nil_r, Nat.add_0_r. reflexivity.
+  - simpl rif_loop. rewrite nth_error_mid. destruct mid as [|e mid'].
+    + simpl. rewrite app_nil_r, Nat.add_0_r. destruct que as [|e r]; simpl; [reflexivity|].
+      inversion Hq; subst. rewrite (is_pub0_id e) by assumption. reflexivity.
+    + inversion Hm; subst. simpl hd_error. cbv iota.
+      destruct (e_id e =? 0) eqn:Hid; [apply N.eqb_eq in Hid; contradiction|].
+      rewrite <- app_comm_cons, replace_nth_mid.
+      change (pre ++ (if ifexp =? 0 then e else with_expiry (Some (now + ifexp)) e) :: mid' ++ que)
+        with (pre ++ [etouch now ifexp e] ++ mid' ++ que).
+      rewrite app_assoc.
+      replace (S (length pre)) with (length (pre ++ [etouch now ifexp e])) by (rewrite app_length; simpl; lia).
+      rewrite IH by assumption. simpl. rewrite !app_length. simpl.
+      rewrite <- !app_assoc. simpl. f_equal. f_equal. f_equal. lia.
+Qed.
+
+Lemma inf_rel_touch now ifexp e a : inf_rel e a -> inf_rel (etouch now ifexp e) (atouch now ifexp a).
+Proof.
+  unfold inf_rel, etouch, atouch. intros (H1 & H2 & H3 & H4).
+  destruct (ifexp =? 0); simpl; auto.
+Qed.
+
+Lemma oelem_of_touch now ifexp e : oelem_of (etouch now ifexp e) = oelem_of e.
+Proof. unfold etouch. destruct (ifexp =? 0); reflexivity. Qed.
+
+Lemma inf_rel_matches e a : inf_rel e a -> oelem_matches (oelem_of e) a = true.
+Proof.
+  unfold inf_rel, oelem_of, e_id. intros (H1 & H2 & H3 & H4).
+  destruct (e_body e) as [m|p]; simpl.
+  - destruct H4 as (Hr & Hq & Ht). rewrite Hr, Hq, Ht, H2, !N.eqb_refl. reflexivity.
+  - destruct H4 as (Hr & Ht). rewrite Hr, H2, N.eqb_refl. reflexivity.
+Qed.
+
+Lemma all2_matches now ifexp l al : Forall2 inf_rel l al ->
+  all2 oelem_matches (map oelem_of (map (etouch now ifexp) l)) al = true.
+Proof.
+  intros H. induction H as [|e a l al Hea H IH]; simpl; auto.
+  rewrite oelem_of_touch, inf_rel_matches, IH; auto.
+Qed.
+
+Lemma Forall2_firstn {A B} (P : A -> B -> Prop) l m : Forall2 P l m -> forall n, Forall2 P (firstn n l) (firstn n m).
+Proof. intros H. induction H; intros [|n]; simpl; auto. Qed.
+Lemma Forall2_skipn {A B} (P : A -> B -> Prop) l m : Forall2 P l m -> forall n, Forall2 P (skipn n l) (skipn n m).
+Proof. intros H. induction H; intros [|n]; simpl; auto. Qed.
+Lemma Forall2_map2 {A B} (P : A -> B -> Prop) (f : A -> A) (g : B -> B) l m :
+  (forall x y, P x y -> P (f x) (g y)) -> Forall2 P l m -> Forall2 P (map f l) (map g m).
+Proof. intros Hf H. induction H; simpl; auto. Qed.
+
+Lemma skipn_firstn_len {A} (l : list A) : forall n, skipn (length (firstn n l)) l = skipn n l.
+Proof. induction l as [|x r IH]; intros [|n]; simpl; auto. Qed.
+
+Lemma firstn_min_len {A} (l : list A) n m : (length l <= m)%nat -> firstn (Nat.min n m) l = firstn n l.
+Proof. intros H. rewrite <- firstn_firstn. rewrite (firstn_all2 (n := m)); auto. Qed.
+
+Lemma skipn_min_len {A} (l : list A) n m : (length l <= m)%nat -> skipn (Nat.min n m) l = skipn n l.
+Proof.
+  intros H. destruct (Nat.min_spec n m) as [[_ ->]|[Hle ->]]; auto.
+  rewrite !skipn_all2; auto; lia.
+Qed.
+
+Lemma readinflight_ok_eq now n rs s apre amid :
+  a_inf s = apre ++ amid -> length amid = a_rem s ->
+  all2 oelem_matches rs (firstn n amid) = true ->
+  readinflight_ok now n rs s =
+  Some (set_flags (upd s (apre ++ map (atouch now (a_ifexp s)) (firstn n amid) ++ skipn n amid)
+                         (a_rem s - length (firstn n amid))%nat (a_q s) (a_added s) (a_handed s) (a_dropped s) (a_cq s) (a_ci s))
+                  (a_drained s || ((a_rem s =? 0)%nat && isnil (a_q s)) ||
+                   ((length (firstn n amid) <? Nat.min n (length (a_inf s) + length (a_q s)))%nat && negb (isnil (a_q s))))
+                  (a_closed s)).
+Proof.
+  intros Hi Hl Hall. unfold readinflight_ok.
+  replace (length (a_inf s) - a_rem s)%nat with (length apre) by (rewrite Hi, app_length; lia).
+  assert (Hs : skipn (length apre) (a_inf s) = amid).
+  { rewrite Hi, skipn_app, Nat.sub_diag, skipn_all. reflexivity. }
+  assert (Hf : firstn (length apre) (a_inf s) = apre).
+  { rewrite Hi, firstn_app, Nat.sub_diag, firstn_all. simpl. apply app_nil_r. }
+  rewrite !Hs, Hf, Hall, skipn_firstn_len. reflexivity.
+Qed.
+
+Lemma map_tag_touch now ifexp l : map a_tag (map (atouch now ifexp) l) = map a_tag l.
+Proof. induction l; simpl; congruence. Qed.
+
+Lemma readinflight_sim q seen s now n : Rx q seen s -> step_sim q seen s (OReadInflight now n).
+Proof.
+  intros (inf & que & H). pose proof (R_len_inf _ _ _ _ _ H) as Hli. destruct H.
+  set (pre := firstn (q_cur q) inf). set (mid := skipn (q_cur q) inf).
+  assert (Hpm : inf = pre ++ mid) by (symmetry; apply firstn_skipn).
+  assert (Hlp : length pre = q_cur q) by (apply firstn_length_le; lia).
+  assert (Hlm : length mid = a_rem s) by (unfold mid; rewrite skipn_length; lia).
+  pose proof R_inf0 as Hf2. rewrite Hpm in Hf2. apply Forall2_app_inv_l in Hf2.
+  destruct Hf2 as (apre & amid & Hfp & Hfm & Hai).
+  pose proof (Forall2_length' _ _ _ Hfp) as Hlap. pose proof (Forall2_length' _ _ _ Hfm) as Hlam.
+  assert (Hmid_id : Forall (fun e => e_id e <> 0) mid).
+  { clear - Hfm. induction Hfm as [|e a l al Hea H IH]; constructor; auto. destruct Hea; auto. }
+  unfold step_sim. simpl.
+  destruct (q_read_inflight now n q) as [q' rs] eqn:Hq. simpl. split; [discriminate|].
+  unfold q_read_inflight in Hq.
+  assert (Hll : length (q_l q) = (length inf + length que)%nat) by (rewrite R_l0, app_length; lia).
+  destruct ((length (q_l q) =? 0)%nat || (q_cur q =? length (q_l q))%nat) eqn:Hc.
+  - (* already past the in-flight entries *)
+    inversion Hq; subst q' rs; clear Hq.
+    assert (Hz : a_rem s = 0%nat /\ que = []).
+    { apply orb_true_iff in Hc. destruct Hc as [Hc|Hc]; apply Nat.eqb_eq in Hc.
+      - split; [lia|]. destruct que; [reflexivity|simpl in Hll; lia].
+      - split; [lia|]. destruct que; [reflexivity|simpl in Hll; lia]. }
+    destruct Hz as [Hr0 ->]. destruct amid as [|? ?]; [|simpl in Hlam; lia].
+    change (map oelem_of []) with (@nil oelem).
+    rewrite (readinflight_ok_eq now n [] s apre []); auto.
+    2:{ rewrite firstn_nil. reflexivity. }
+    eexists; split; [reflexivity|]. exists inf, []. rewrite app_nil_r in Hai.
+    rewrite firstn_nil, skipn_nil. simpl. rewrite app_nil_r, <- Hai, Nat.sub_0_r.
+    constructor; simpl; auto.
+    rewrite R_aq0, Hr0. simpl. rewrite orb_true_r. reflexivity.
+  - (* replay *)
+    apply orb_false_iff in Hc. destruct Hc as [Hc1 Hc2]. apply Nat.eqb_neq in Hc1, Hc2.
+    rewrite R_l0, Hpm, <- app_assoc, <- Hlp in Hq.
+    rewrite (rif_loop_spec now (q_ifexp q) que R_que0) in Hq by assumption.
+    inversion Hq; subst q' rs; clear Hq.
+    assert (Hlen_le : (length mid <= length (pre ++ mid ++ que))%nat) by (rewrite !app_length; lia).
+    rewrite firstn_min_len, skipn_min_len by assumption. simpl.
+    rewrite (readinflight_ok_eq now n _ s apre amid); auto; [|lia|].
+    2:{ apply all2_matches. apply Forall2_firstn. assumption. }
+    eexists; split; [reflexivity|].
+    exists (pre ++ map (etouch now (q_ifexp q)) (firstn n mid) ++ skipn n mid), que.
+    assert (Hk : length (firstn n mid) = length (firstn n amid)) by (rewrite !firstn_length; lia).
+    assert (Hlen' : length (apre ++ map (atouch now (a_ifexp s)) (firstn n amid) ++ skipn n amid) = length (a_inf s)).
+    { rewrite Hai, !app_length, map_length, firstn_length, skipn_length. lia. }
+    constructor; simpl; auto; rewrite ?Hlen'; auto.
+    + rewrite <- !app_assoc. reflexivity.
+    + apply Forall2_app; auto. apply Forall2_app.
+      * rewrite R_ifexp0. apply Forall2_map2; [apply inf_rel_touch|]. apply Forall2_firstn; auto.
+      * apply Forall2_skipn; auto.
+    + lia.
+    + rewrite firstn_length in *. lia.
+    + rewrite firstn_length in *. intros Hd. apply orb_true_iff in Hd. destruct Hd as [Hd|Hd].
+      * apply R_dr0 in Hd. lia.
+      * apply andb_true_iff in Hd. destruct Hd as [Hd _]. apply Nat.ltb_lt in Hd. lia.
+    + rewrite R_fdr0, R_aq0. rewrite firstn_length, app_length, map_length, Hai, app_length.
+      rewrite !app_length. destruct que as [|e0 que']; simpl.
+      * rewrite !andb_false_r, !orb_false_r, andb_true_r.
+        destruct (a_rem s =? 0)%nat eqn:Hr0; [apply Nat.eqb_eq in Hr0|]; [|rewrite orb_false_r; reflexivity].
+        exfalso. simpl in Hll. lia.
+      * rewrite !andb_false_r, !andb_true_r, orb_false_r. f_equal.
+        destruct (Nat.ltb_spec (length mid) (Nat.min n (length pre + (length mid + S (length que')))));
+        destruct (Nat.ltb_spec (Nat.min n (length amid)) (Nat.min n (length apre + length amid + S (length que')))); auto; lia.
+    + rewrite !map_app, map_tag_touch. rewrite <- (map_app a_tag (firstn n amid)), firstn_skipn, <- !map_app, <- Hai. auto.
+Qed.
+
+(* ---- Read ---- *)
+Lemma rw_nil now s q pids inf nq ni :
+  read_walk now s q [] [] pids inf nq ni = Some (q, [], [], inf, nq, ni).
+Proof. destruct q; reflexivity. Qed.
+
+Lemma rw_expired now s a q' rs drops' pids i0 h0 d0 nq ni :
+  aexpired now a = true ->
+  read_walk now s (a :: q') rs ((a_tag a, DExpired) :: drops') pids (i0, h0, d0) nq ni =
+  read_walk now s q' rs drops' pids (i0, h0, d0 ++ [a_tag a]) (nq - 1)%Z ni.
+Proof. intros H. simpl. rewrite H, N.eqb_refl. destruct rs; reflexivity. Qed.
+
+Lemma rw_oversize now s a q' rs drops' pids i0 h0 d0 nq ni :
+  aexpired now a = false -> (a_limit s <? asize (a_v5 s) a) = true ->
+  read_walk now s (a :: q') rs ((a_tag a, DExceedsMax) :: drops') pids (i0, h0, d0) nq ni =
+  read_walk now s q' rs drops' pids (i0, h0, d0 ++ [a_tag a]) (nq - 1)%Z ni.
+Proof. intros H1 H2. simpl. rewrite H1, H2, N.eqb_refl. destruct rs; reflexivity. Qed.
+
+Lemma rw_qos0 now s a q' rs' drops pids i0 h0 d0 nq ni :
+  aexpired now a = false -> (a_limit s <? asize (a_v5 s) a) = false -> aqos a = 0 ->
+  read_walk now s (a :: q') (OPub (a_tag a) 0 0 :: rs') drops pids (i0, h0, d0) nq ni =
+  read_walk now s q' rs' drops pids (i0, h0 ++ [a_tag a], d0) (nq - 1)%Z ni.
+Proof. intros H1 H2 H3. simpl. rewrite H1, H2, H3, N.eqb_refl. reflexivity. Qed.
+
+Definition ahand (now ifexp p : N) (a : aent) : aent :=
+  {| a_tag := a_tag a; a_pid := p; a_rel := false; a_msg := a_msg a;
+     a_exp := if ifexp =? 0 then a_exp a else Some (now + ifexp) |}.
+Definition hand (now ifexp p : N) (m : msg) (v : elem) : elem :=
+  if ifexp =? 0 then with_body (QPub (set_pid p m)) v
+  else with_expiry (Some (now + ifexp)) (with_body (QPub (set_pid p m)) v).
+
+Lemma rw_qos1 now s a q' rs' drops p pids' i0 h0 d0 nq ni :
+  aexpired now a = false -> (a_limit s <? asize (a_v5 s) a) = false -> aqos a <> 0 ->
+  read_walk now s (a :: q') (OPub (a_tag a) p (aqos a) :: rs') drops (p :: pids') (i0, h0, d0) nq ni =
+  read_walk now s q' rs' drops pids' (i0 ++ [ahand now (a_ifexp s) p a], h0 ++ [a_tag a], d0) nq (ni + 1)%Z.
+Proof.
+  intros H1 H2 H3. apply N.eqb_neq in H3. simpl. rewrite H1, H2, H3, !N.eqb_refl. reflexivity.
+Qed.
+
+Lemma pub0_inv v : is_pub0 v = true -> exists m, e_body v = QPub m /\ m_pid m = 0.
+Proof. unfold is_pub0. destruct (e_body v) as [m|p]; [|discriminate]. intros H. apply N.eqb_eq in H. eauto. Qed.
+
+Lemma ent_pub v m : e_body v = QPub m ->
+  ent_of_elem v = {| a_tag := e_tag v; a_pid := m_pid m; a_rel := false; a_msg := Some m; a_exp := e_expiry v |}.
+Proof. intros H. unfold ent_of_elem. rewrite H. reflexivity. Qed.
+
+Lemma ent_tag_pub0 v : is_pub0 v = true -> a_tag (ent_of_elem v) = e_tag v.
+Proof. intros H. destruct (pub0_inv v H) as (m & Hb & _). rewrite (ent_pub v m Hb). reflexivity. Qed.
+
+Lemma ent_expired now v : aexpired now (ent_of_elem v) = expired now v.
+Proof. unfold ent_of_elem, aexpired, expired. destruct (e_body v); reflexivity. Qed.
+
+Lemma map_ent_tag que : Forall (fun e => is_pub0 e = true) que -> map a_tag (map ent_of_elem que) = map e_tag que.
+Proof. intros H. induction H as [|e l He H IH]; simpl; auto. rewrite ent_tag_pub0, IH; auto. Qed.
+
+Lemma inf_rel_hand now ifexp p m v : p <> 0 -> e_body v = QPub m ->
+  inf_rel (hand now ifexp p m v) (ahand now ifexp p (ent_of_elem v)).
+Proof.
+  intros Hp Hb. rewrite (ent_pub v m Hb). unfold inf_rel, hand, ahand, e_id, aqos.
+  destruct (ifexp =? 0); simpl; auto 10.
+Qed.
+
+Section ReadLoop.
+Variables (now : N) (s : ast).
+
+Lemma read_loop_sim : forall n que inf pids dq di evs rs,
+  Forall (fun e => is_pub0 e = true) que -> (n <= length pids)%nat -> Forall (fun p => p <> 0) pids ->
+  exists inf2 ainf2 que2 rs2 drops2 x y,
+    read_loop now n pids (inf ++ que) (length inf) (a_limit s) (a_v5 s) (a_ifexp s) dq di evs rs
+      = Some ((inf ++ inf2) ++ que2, length (inf ++ inf2), (dq + x)%Z, (di + y)%Z,
+              evs ++ map (fun dr => EvDropped (fst dr) (snd dr)) drops2, rs ++ rs2) /\
+    x = (Z.of_nat (length inf2 + length que2) - Z.of_nat (length que))%Z /\
+    y = Z.of_nat (length inf2) /\
+    Forall2 inf_rel inf2 ainf2 /\ Forall (fun e => is_pub0 e = true) que2 /\
+    subseq (map a_tag ainf2 ++ map e_tag que2) (map e_tag que) /\
+    (length inf2 + length que2 <= length que)%nat /\
+    forall i0 h0 d0 nq ni, exists h1 d1,
+      read_walk now s (map ent_of_elem que) (map oelem_of rs2)
+                (map (fun dr => (e_tag (fst dr), snd dr)) drops2) pids (i0, h0, d0) nq ni
+      = Some (map ent_of_elem que2, [], [], (i0 ++ ainf2, h1, d1), (nq + x)%Z, (ni + y)%Z).
+Proof.
+  assert (Hstop : forall n que inf pids dq di evs rs,
+    read_loop now n pids (inf ++ que) (length inf) (a_limit s) (a_v5 s) (a_ifexp s) dq di evs rs
+      = Some (inf ++ que, length inf, dq, di, evs, rs) ->
+    Forall (fun e => is_pub0 e = true) que ->
+    exists inf2 ainf2 que2 rs2 drops2 x y,
+    read_loop now n pids (inf ++ que) (length inf) (a_limit s) (a_v5 s) (a_ifexp s) dq di evs rs
+      = Some ((inf ++ inf2) ++ que2, length (inf ++ inf2), (dq + x)%Z, (di + y)%Z,
+              evs ++ map (fun dr => EvDropped (fst dr) (snd dr)) drops2, rs ++ rs2) /\
+    x = (Z.of_nat (length inf2 + length que2) - Z.of_nat (length que))%Z /\
+    y = Z.of_nat (length inf2) /\
+    Forall2 inf_rel inf2 ainf2 /\ Forall (fun e => is_pub0 e = true) que2 /\
+    subseq (map a_tag ainf2 ++ map e_tag que2) (map e_tag que) /\
+    (length inf2 + length que2 <= length que)%nat /\
+    forall i0 h0 d0 nq ni, exists h1 d1,
+      read_walk now s (map ent_of_elem que) (map oelem_of rs2)
+                (map (fun dr => (e_tag (fst dr), snd dr)) drops2) pids (i0, h0, d0) nq ni
+      = Some (map ent_of_elem que2, [], [], (i0 ++ ainf2, h1, d1), (nq + x)%Z, (ni + y)%Z)).
+  { intros n que inf pids dq di evs rs Heq Hq.
+    exists [], [], que, [], [], 0%Z, 0%Z. rewrite Heq. simpl.
+    rewrite !app_nil_r, !Z.add_0_r. repeat split; auto.
+    - lia.
+    - apply subseq_refl.
+    - intros i0 h0 d0 nq ni. exists h0, d0. rewrite rw_nil, app_nil_r, !Z.add_0_r. reflexivity. }
+  induction n as [|k IH]; intros que inf pids dq di evs rs Hq Hn Hp.
+  - apply Hstop; auto.
+  - destruct que as [|v que'].
+    { apply Hstop; auto. simpl. rewrite nth_error_mid. reflexivity. }
+    inversion Hq as [|? ? Hv Hq']; subst.
+    destruct (pub0_inv v Hv) as (m & Hb & Hpid).
+    simpl read_loop. rewrite nth_error_mid. simpl hd_error. cbv iota.
+    pose proof (ent_expired now v) as Hexp.
+    assert (Htag : a_tag (ent_of_elem v) = e_tag v) by (apply ent_tag_pub0; auto).
+    destruct (expired now v) eqn:Hx.
+    { (* expired: dropped *)
+      rewrite remove_nth_mid.
+      destruct (IH que' inf pids (dq - 1)%Z di (evs ++ [EvDropped v DExpired]) rs Hq') as
+        (inf2 & ainf2 & que2 & rs2 & drops2 & x & y & Heq & Hx' & Hy & Hf2 & Hq2 & Hss & Hle & Hrw); auto; [simpl in Hn; lia|].
+      exists inf2, ainf2, que2, rs2, ((v, DExpired) :: drops2), (x - 1)%Z, y.
+      rewrite Heq. cbn [map fst snd length app]. rewrite <- !app_assoc. cbn [app].
+      split; [replace (dq - 1 + x)%Z with (dq + (x - 1))%Z by lia; reflexivity|].
+      split; [lia|]. split; [auto|]. split; [auto|]. split; [auto|].
+      split; [constructor; auto|]. split; [lia|].
+      intros i0 h0 d0 nq ni. rewrite <- Htag. rewrite rw_expired by assumption.
+      destruct (Hrw i0 h0 (d0 ++ [a_tag (ent_of_elem v)]) (nq - 1)%Z ni) as (h1 & d1 & Hw).
+      exists h1, d1. rewrite Hw. replace (nq - 1 + x)%Z with (nq + (x - 1))%Z by lia. reflexivity. }
+    rewrite Hb.
+    assert (Hsz : asize (a_v5 s) (ent_of_elem v) = msg_total_bytes (a_v5 s) m).
+    { rewrite (ent_pub v m Hb). reflexivity. }
+    assert (Hqos : aqos (ent_of_elem v) = m_qos m).
+    { rewrite (ent_pub v m Hb). reflexivity. }
+    destruct (a_limit s <? msg_total_bytes (a_v5 s) m) eqn:Hlim.
+    { (* oversize: dropped *)
+      rewrite remove_nth_mid.
+      destruct (IH que' inf pids (dq - 1)%Z di (evs ++ [EvDropped v DExceedsMax]) rs Hq') as
+        (inf2 & ainf2 & que2 & rs2 & drops2 & x & y & Heq & Hx' & Hy & Hf2 & Hq2 & Hss & Hle & Hrw); auto; [simpl in Hn; lia|].
+      exists inf2, ainf2, que2, rs2, ((v, DExceedsMax) :: drops2), (x - 1)%Z, y.
+      rewrite Heq. cbn [map fst snd length app]. rewrite <- !app_assoc. cbn [app].
+      split; [replace (dq - 1 + x)%Z with (dq + (x - 1))%Z by lia; reflexivity|].
+      split; [lia|]. split; [auto|]. split; [auto|]. split; [auto|].
+      split; [constructor; auto|]. split; [lia|].
+      intros i0 h0 d0 nq ni. rewrite <- Htag. rewrite rw_oversize; [|congruence|congruence].
+      destruct (Hrw i0 h0 (d0 ++ [a_tag (ent_of_elem v)]) (nq - 1)%Z ni) as (h1 & d1 & Hw).
+      exists h1, d1. rewrite Hw. replace (nq - 1 + x)%Z with (nq + (x - 1))%Z by lia. reflexivity. }
+    destruct (m_qos m =? 0) eqn:Hq0.
+    { (* QoS 0: handed out and removed *)
+      apply N.eqb_eq in Hq0. rewrite remove_nth_mid.
+      destruct (IH que' inf pids (dq - 1)%Z di evs (rs ++ [v]) Hq') as
+        (inf2 & ainf2 & que2 & rs2 & drops2 & x & y & Heq & Hx' & Hy & Hf2 & Hq2 & Hss & Hle & Hrw); auto; [simpl in Hn; lia|].
+      exists inf2, ainf2, que2, (v :: rs2), drops2, (x - 1)%Z, y.
+      rewrite Heq. cbn [map fst snd length app]. rewrite <- !app_assoc. cbn [app].
+      split; [replace (dq - 1 + x)%Z with (dq + (x - 1))%Z by lia; reflexivity|].
+      split; [lia|]. split; [auto|]. split; [auto|]. split; [auto|].
+      split; [constructor; auto|]. split; [lia|].
+      intros i0 h0 d0 nq ni. unfold oelem_of at 1. rewrite Hb, Hpid, Hq0, <- Htag.
+      rewrite rw_qos0; [|congruence|congruence|congruence].
+      destruct (Hrw i0 (h0 ++ [a_tag (ent_of_elem v)]) d0 (nq - 1)%Z ni) as (h1 & d1 & Hw).
+      exists h1, d1. rewrite Hw. replace (nq - 1 + x)%Z with (nq + (x - 1))%Z by lia. reflexivity. }
+    (* QoS > 0: gets the next id and becomes in flight *)
+    apply N.eqb_neq in Hq0.
+    destruct pids as [|p pids']; [simpl in Hn; lia|].
+    inversion Hp as [|? ? Hp0 Hp']; subst.
+    rewrite replace_nth_mid.
+    change (if a_ifexp s =? 0 then with_body (QPub (set_pid p m)) v
+            else with_expiry (Some (now + a_ifexp s)) (with_body (QPub (set_pid p m)) v))
+      with (hand now (a_ifexp s) p m v).
+    set (v' := hand now (a_ifexp s) p m v).
+    replace (inf ++ v' :: que') with ((inf ++ [v']) ++ que') by (rewrite <- app_assoc; reflexivity).
+    replace (S (length inf)) with (length (inf ++ [v'])) by (rewrite app_length; simpl; lia).
+    destruct (IH que' (inf ++ [v']) pids' dq (di + 1)%Z evs (rs ++ [v']) Hq') as
+      (inf2 & ainf2 & que2 & rs2 & drops2 & x & y & Heq & Hx' & Hy & Hf2 & Hq2 & Hss & Hle & Hrw); auto; [simpl in Hn; lia|].
+    exists (v' :: inf2), (ahand now (a_ifexp s) p (ent_of_elem v) :: ainf2), que2, (v' :: rs2), drops2, x, (y + 1)%Z.
+    rewrite Heq. cbn [map fst snd length app]. rewrite <- !app_assoc. cbn [app].
+    split; [replace (di + 1 + y)%Z with (di + (y + 1))%Z by lia; reflexivity|]. split; [lia|]. split; [lia|].
+    split; [constructor; auto; apply inf_rel_hand; auto|]. split; [auto|].
+    split; [rewrite <- Htag; constructor; auto|]. split; [lia|].
+    intros i0 h0 d0 nq ni.
+    assert (Hov : oelem_of v' = OPub (a_tag (ent_of_elem v)) p (aqos (ent_of_elem v))).
+    { rewrite Htag, Hqos. unfold v', hand, oelem_of. destruct (a_ifexp s =? 0); reflexivity. }
+    rewrite Hov. rewrite rw_qos1; [|congruence|congruence|congruence].
+    destruct (Hrw (i0 ++ [ahand now (a_ifexp s) p (ent_of_elem v)]) (h0 ++ [a_tag (ent_of_elem v)]) d0 nq (ni + 1)%Z) as (h1 & d1 & Hw).
+    exists h1, d1. rewrite Hw, <- app_assoc. replace (ni + 1 + y)%Z with (ni + (y + 1))%Z by lia. reflexivity.
+Qed.
+End ReadLoop.
